@@ -23,6 +23,8 @@ Traces == JsonDeserialize(IOEnv.C05_TRACES)
 
 VARIABLES tid, acc
 
+NoEmit == FALSE   \* MC_Trace_Verdict.cfg: EmitRecords <- NoEmit
+
 tvars == <<vars, tid, acc>>
 
 T == Traces[tid]
@@ -67,6 +69,10 @@ Accept ==
     /\ UNCHANGED <<vars, tid>>
 
 TNext == Step \/ Accept
+
+\* the history matters only through the per-thread prefixes it has consumed (they are prefixes of fixed sequences)
+TView == <<arms, fl, prev, mpc, i, qs, shutdown, sharedcore, outputs, normal, stuck, raised, code, pexit, lock, tid, acc,
+           Len(ProjMain(hist)), [q \in 0..(Len(T.arms) - 1) |-> Len(ProjW(hist, q))]>>
 
 TSpec == TInit /\ [][TNext]_tvars
 =============================================================================
